@@ -165,6 +165,10 @@ func genScenario(p profile) func(*rapid.T) Scenario {
 			var ps PubSpec
 			for k := 0; k < nm; k++ {
 				ps.Msgs = append(ps.Msgs, genTopicSet(t))
+				if stats.Pct(t, "notopics") >= 96 {
+					// no topics at all (nil or empty): Publish must refuse it with ErrNoTopic and nobody receives it
+					ps.Msgs[k] = [][]string{nil, {}}[stats.Pick(t, 2, "notopicskind")]
+				}
 				if (sc.Replayer == "finite" || sc.Replayer == "valid") && stats.Pct(t, "badmsg") < 12 {
 					ps.Bad = append(ps.Bad, k)
 				}
